@@ -128,7 +128,7 @@ CONTRACTS = {
         "assert_inv_of": ["sm"], "assume_inv_of": ["sm"],
         "modifies": _CB_MOD,
         "site_asserts": {
-            "C01.A1 a regular (non-default, non-must_finish) state only runs if engage() was called since the previous iteration":
+            "C01.A1 (also C04: once engage() stops, no regular state runs) a regular (non-default, non-must_finish) state only runs if engage() was called since the previous iteration":
                 "implies(not (self is DF(sm)) and not self.must_finish, old(SE(sm)))",
             "C01.S1 without engage() a non-default state only runs if the machine had not stopped (a non-default state was current at entry)":
                 "implies(not (self is DF(sm)) and not old(SE(sm)), old(ST(sm)) is not None and not (old(ST(sm)) is DF(sm)))",
